@@ -90,13 +90,44 @@ pub fn canonical_real(y: u64) -> bool {
 /// Bits the real get_resolution loop examines: odd bits 1..55, then 56, then 57.
 pub const M: u64 = 0x02AA_AAAA_AAAA_AAAA | (1u64 << 56);
 
+/// Count trailing zeros of a non-zero word by binary search. Unlike the `trailing_zeros` intrinsic
+/// this is constant-folded by CBMC's symbolic execution when the argument is concrete, which keeps
+/// the resolution of a literal ID — and with it every loop bound derived from it — concrete.
+pub fn ctz64(mut y: u64) -> u32 {
+    let mut n = 0;
+    if y & 0xFFFF_FFFF == 0 {
+        n += 32;
+        y >>= 32;
+    }
+    if y & 0xFFFF == 0 {
+        n += 16;
+        y >>= 16;
+    }
+    if y & 0xFF == 0 {
+        n += 8;
+        y >>= 8;
+    }
+    if y & 0xF == 0 {
+        n += 4;
+        y >>= 4;
+    }
+    if y & 0x3 == 0 {
+        n += 2;
+        y >>= 2;
+    }
+    if y & 0x1 == 0 {
+        n += 1;
+    }
+    n
+}
+
 /// Loop-free get_resolution (equivalence: `oracle_res_equiv`, all 2^64 inputs).
 pub fn res_stub(x: u64) -> i32 {
     let y = x & M;
     if y == 0 {
         return -1;
     }
-    let p = y.trailing_zeros();
+    let p = ctz64(y);
     if p == 57 {
         0
     } else if p == 56 {
@@ -112,7 +143,7 @@ pub fn spec_valid(x: u64) -> bool {
     if y == 0 {
         return x == 0;
     }
-    let p = y.trailing_zeros();
+    let p = ctz64(y);
     if x & ((1u64 << p) - 1) != 0 {
         return false;
     }
@@ -140,14 +171,14 @@ pub fn spec_covers(x: u64, y: u64) -> bool {
         let fy = if ry == 0 { y >> 58 } else { (y >> 58) / 5 };
         return fy == (x >> 58);
     }
-    let p = (x & M).trailing_zeros();
+    let p = ctz64(x & M);
     let sh = if p == 56 { 58 } else { p + 1 };
     (x >> sh) == (y >> sh)
 }
 
 /// k-th child (k<4) of a canonical cell of resolution ≥ 1 (equivalence: `oracle_child_equiv`).
 pub fn spec_child(x: u64, k: u64) -> u64 {
-    let p = (x & M).trailing_zeros(); // marker bit position (56 at r=1, 57−2(r−1) at r≥2)
+    let p = ctz64(x & M); // marker bit position (56 at r=1, 57−2(r−1) at r≥2)
     if p == 56 {
         (x & !(1u64 << 56)) | (k << 56) | (1u64 << 55)
     } else {
